@@ -199,6 +199,24 @@ def run_lines(cmd, lines, timeout=900):
     return rc, outl, err, dt
 
 
+def run_lines_resilient(cmd, lines, max_crashes=12, timeout=900):
+    """like run_lines, but a command that kills the process (abort / signal) does not lose the rest of the batch: the
+    batch is restarted after the crashing command.  Returns (outputs with None at crashed commands, [(index, rc, stderr)])"""
+    out, crashes, start = [], [], 0
+    while start < len(lines):
+        rc, o, err, _ = run_lines(cmd, lines[start:], timeout)
+        out += o[:len(lines) - start]
+        if len(out) >= len(lines):
+            break
+        crashes.append((len(out), rc, err[-600:]))
+        out.append(None)
+        start = len(out)
+        if len(crashes) >= max_crashes:
+            out += [None] * (len(lines) - len(out))
+            break
+    return out, crashes
+
+
 def build(flavor='exc'):
     exe = C.build_harness('c09_rect', ['libvpsc'], flavor)
     drv = C.ocaml_build('c09model', 'C09model.v', 'c09_driver.ml', 'c09_model.ml')
@@ -289,9 +307,9 @@ def oracle_R(inst, fixed, res, check_fixed):
             oy = min(R[i][3], R[j][3]) - max(R[i][2], R[j][2]) + 2 * yb
             if ox > tol and oy > tol:
                 fails.append({'what': 'overlap with positive area', 'pair': [i, j], 'overlap_x': float(ox), 'overlap_y': float(oy)})
-    if check_fixed and fixed:
+    if check_fixed and fixed and n:
         mean = sum(F(r[1] - r[0] + r[3] - r[2], 2 * s) for r in inst.rects) / n
-        for i in fixed:
+        for i in [f for f in fixed if f < n]:      # indices >= n name no rectangle (removeoverlaps only looks up 0..n-1)
             dx = (R[i][0] + R[i][1]) / 2 - F(inst.rects[i][0] + inst.rects[i][1], 2 * s)
             dy = (R[i][2] + R[i][3]) / 2 - F(inst.rects[i][2] + inst.rects[i][3], 2 * s)
             if max(abs(dx), abs(dy)) >= mean / 100:
@@ -376,3 +394,218 @@ def generic_position(inst):
     cx, cy = inst.centres(0), inst.centres(1)
     return (len(set(xs)) == len(xs) and len(set(ys)) == len(ys) and len(set(cx)) == len(cx) and len(set(cy)) == len(cy)
             and not heuristic_tie(inst))
+
+
+# ------------------------------------------------------------------------------------------ degenerate sizes (DESIGN 9.18)
+FIXED_SETS = [[], [0], [1], [0, 1], [7]]      # [7]: names no rectangle of a set with < 8 elements (valid: only looked up)
+
+
+def degenerate_cases():
+    """removeoverlaps with n = 0, 1, 2 rectangles for every combination of fixed set / thirdPass / caller borders
+    (single calls through the R command): the early-out region of the code"""
+    out = []
+    for (scale, xb, yb) in ((1, 0, 0), (4, 3, 1), (4, 0, 2)):
+        for n in (0, 1, 2):
+            rects = [(0, 4 * scale, 0, 3 * scale), (scale, 3 * scale, scale, 5 * scale)][:n]
+            for fixed in FIXED_SETS:
+                for third in (False, True):
+                    out.append((Inst(scale, rects, xb, yb, 'degenerate-n%d' % n), fixed, third))
+    return out
+
+
+class Seq:
+    """k removeoverlaps calls in one process (harness command Q): the border globals are set once and only read back"""
+
+    def __init__(self, scale, xb, yb, calls, family=''):
+        # calls: list of dicts {ovl, third, fixed, rects}
+        self.scale, self.xb, self.yb, self.calls, self.family = scale, xb, yb, calls, family
+
+    def cmd(self, upto=None):
+        cs = self.calls if upto is None else self.calls[:upto]
+        parts = ['Q %d %d %d %d' % (self.scale, self.xb, self.yb, len(cs))]
+        for c in cs:
+            parts.append('%d %d %d %s %d %s' % (c['ovl'], 1 if c['third'] else 0, len(c['fixed']), ' '.join(map(str, c['fixed'])),
+                                               len(c['rects']), ' '.join('%d %d %d %d' % tuple(r) for r in c['rects'])))
+        return ' '.join(' '.join(parts).split())
+
+    def to_json(self, upto=None):
+        cs = self.calls if upto is None else self.calls[:upto]
+        return {'scale': self.scale, 'xBorder': '%d/%d' % (self.xb, self.scale), 'yBorder': '%d/%d' % (self.yb, self.scale), 'family': self.family,
+                'calls': [{'overload': ['removeoverlaps(rs,fixed,thirdPass)', 'removeoverlaps(rs,fixed)', 'removeoverlaps(rs)'][c['ovl']],
+                           'thirdPass': bool(c['third']), 'fixed': c['fixed'], 'rects_minX_maxX_minY_maxY_over_scale': [list(r) for r in c['rects']]}
+                          for c in cs]}
+
+    @staticmethod
+    def from_json(d, family):
+        ov = {'removeoverlaps(rs,fixed,thirdPass)': 0, 'removeoverlaps(rs,fixed)': 1, 'removeoverlaps(rs)': 2}
+        return Seq(d['scale'], int(d['xBorder'].split('/')[0]), int(d['yBorder'].split('/')[0]),
+                   [{'ovl': ov[c['overload']], 'third': c['thirdPass'], 'fixed': c['fixed'],
+                     'rects': [tuple(r) for r in c['rects_minX_maxX_minY_maxY_over_scale']]} for c in d['calls']], family)
+
+
+def _call(ovl, third, fixed, rects):
+    # the two short overloads fix their own arguments: (rs,fixed) runs the third pass, (rs) has no fixed set either
+    if ovl >= 1:
+        third = True
+    if ovl == 2:
+        fixed = []
+    return {'ovl': ovl, 'third': third, 'fixed': fixed, 'rects': rects}
+
+
+def seq_exhaustive():
+    """per caller-border setting ONE process that makes every combination n in {0,1,2} x fixed set x thirdPass x overload"""
+    out = []
+    for (scale, xb, yb) in ((1, 0, 0), (4, 3, 1), (8, 0, 5), (4, 2, 0)):
+        calls = []
+        for n in (0, 1, 2):
+            rects = [(0, 4 * scale, 0, 3 * scale), (scale, 3 * scale, scale, 5 * scale)][:n]
+            for fixed in FIXED_SETS:
+                for third in (False, True):
+                    calls.append(_call(0, third, fixed, rects))
+                calls.append(_call(1, True, fixed, rects))
+            calls.append(_call(2, True, [], rects))
+        out.append(Seq(scale, xb, yb, calls, 'seq-exhaustive'))
+        # the degenerate calls first / last / between calls that do real work
+        for order in ((0, 3), (3, 0), (1, 3, 1), (3, 1, 0, 3), (0, 0, 0, 1, 1, 1, 3)):
+            calls = []
+            for n in order:
+                rects = [(0, 4 * scale, 0, 3 * scale), (scale, 3 * scale, scale, 5 * scale), (2 * scale, 6 * scale, 0, 2 * scale)][:n]
+                calls.append(_call(0, len(calls) % 2 == 0, [0] if len(calls) % 3 == 0 else [], rects))
+            out.append(Seq(scale, xb, yb, calls, 'seq-order'))
+    return out
+
+
+def gen_seq(rng):
+    """random sequence: sizes weighted towards 0, 1, 2; any overload / fixed set / thirdPass; zero or non-zero borders"""
+    scale = rng.choice([1, 4, 16])
+    xb, yb = (0, 0) if rng.chance(1, 3) else (rng.below(3 * scale), rng.below(3 * scale))
+    calls = []
+    for _ in range(rng.range(2, 6)):
+        n = rng.choice([0, 0, 1, 1, 1, 2, 2, 3, 4, rng.range(2, 7)])
+        rects = []
+        for _ in range(n):
+            x, y, w, h = rng.below(6 * scale), rng.below(6 * scale), rng.range(1, 3 * scale), rng.range(1, 3 * scale)
+            rects.append((x, x + w, y, y + h))
+        fixed = rng.choice(FIXED_SETS) if rng.chance(1, 2) else sorted(set(rng.below(max(n, 1)) for _ in range(rng.below(3))))
+        calls.append(_call(rng.choice([0, 0, 0, 1, 2]), rng.chance(1, 2), fixed, rects))
+    return Seq(scale, xb, yb, calls, 'seq-random')
+
+
+def parse_Q(line):
+    """'Q k | exc what xB yB witnessW witnessH n (w0 h0 w1 h1 minX maxX minY maxY)*n | ...' -> list of per-call dicts"""
+    parts = line.split(' | ')
+    out = []
+    for p in parts[1:]:
+        f = p.split()
+        n = int(f[6])
+        v = [hexq(x) for x in f[7:7 + 8 * n]]
+        out.append({'exc': int(f[0]), 'what': f[1], 'xb': hexq(f[2]), 'yb': hexq(f[3]), 'ww': hexq(f[4]), 'wh': hexq(f[5]),
+                    'rects': [tuple(v[8 * i:8 * i + 8]) for i in range(n)]})
+    return out
+
+
+def oracle_Q(seq, calls_out):
+    """C09's second sentence after EACH call of the sequence: borders restored (read back from the globals, and through a
+    witness rectangle that takes part in no call), every rectangle's width()/height() unchanged, no overlap (caller's
+    borders), no exception.  Returns (index of the first failing call, failures) or (None, [])"""
+    s = seq.scale
+    xb, yb = F(seq.xb, s), F(seq.yb, s)
+    for k, (c, o) in enumerate(zip(seq.calls, calls_out)):
+        fails = []
+        if o['exc'] != 0:
+            fails.append({'what': 'removeoverlaps threw / failed an assertion', 'code': o['exc'], 'where': o['what']})
+        if o['xb'] != xb or o['yb'] != yb:
+            fails.append({'what': 'Rectangle::xBorder/yBorder not restored after a call with %d rectangle(s)' % len(c['rects']),
+                          'xBorder_before': float(xb), 'yBorder_before': float(yb),
+                          'xBorder_after': float(o['xb']), 'yBorder_after': float(o['yb']),
+                          'leak': [float(o['xb'] - xb), float(o['yb'] - yb)]})
+        if o['ww'] != 3 + 2 * xb or o['wh'] != 5 + 2 * yb:
+            fails.append({'what': 'a rectangle that took part in no call reads a different width()/height() after the call',
+                          'expected': [float(3 + 2 * xb), float(5 + 2 * yb)], 'got': [float(o['ww']), float(o['wh'])]})
+        R = o['rects']
+        if len(R) != len(c['rects']):
+            fails.append({'what': 'harness output malformed'})
+        for i, q in enumerate(R):
+            w0, h0, w1, h1 = q[0], q[1], q[2], q[3]
+            if abs(w1 - w0) > F(1, 10 ** 9) * max(1, w0) or abs(h1 - h0) > F(1, 10 ** 9) * max(1, h0):
+                fails.append({'what': 'size changed (width()/height() read before and after the call)', 'rect': i,
+                              'before': [float(w0), float(h0)], 'after': [float(w1), float(h1)]})
+        if o['exc'] == 0:
+            tol = F(1, 10 ** 6)
+            for i in range(len(R)):
+                for j in range(i + 1, len(R)):
+                    ox = min(R[i][5], R[j][5]) - max(R[i][4], R[j][4]) + 2 * xb
+                    oy = min(R[i][7], R[j][7]) - max(R[i][6], R[j][6]) + 2 * yb
+                    if ox > tol and oy > tol:
+                        fails.append({'what': 'overlap with positive area', 'pair': [i, j], 'overlap_x': float(ox), 'overlap_y': float(oy)})
+        if fails:
+            return k, fails
+    return None, []
+
+
+def small_unmoved(seq, calls_out):
+    """theorem C09_removeoverlaps_small as a correspondence test: a call with < 2 rectangles returns them where they were"""
+    s = seq.scale
+    for k, (c, o) in enumerate(zip(seq.calls, calls_out)):
+        if len(c['rects']) <= 1 and o['exc'] == 0:
+            for r, q in zip(c['rects'], o['rects']):
+                if any(abs(q[4 + t] - F(r[t], s)) > F(1, 10 ** 9) for t in range(4)):
+                    return k
+    return None
+
+
+# ------------------------------------------------------------------------------------------ Variables sharing an id (DESIGN 9.18)
+def gen_dupid(rng):
+    """rectangle sets whose centres tie in the scanned order and that are open in the scan together (identical, concentric,
+    one grid row / column, the tie families of gen_instance) + an id list with duplicates (Variable::id is documentation
+    only).  Returns (Inst, ids)"""
+    fam = rng.choice(['identical', 'concentric', 'column', 'row', 'tied-mix', 'gen'])
+    scale, rects = 1, []
+    if fam == 'identical':
+        n = rng.range(2, 5)
+        x, y, w, h = rng.below(4), rng.below(4), rng.range(1, 4), rng.range(1, 4)
+        rects = [(x, x + w, y, y + h)] * n
+    elif fam == 'concentric':
+        n = rng.range(2, 5)
+        rects = rng.shuffle([(-d - 1, d + 1, -d - 1 - rng.below(2), d + 1 + rng.below(2)) for d in range(n)])
+        rects = [(a, b, c, c + (d - c)) for (a, b, c, d) in rects]
+    elif fam in ('column', 'row'):
+        n = rng.range(2, 6)
+        for k in range(n):
+            a = rng.below(3) * 2
+            w, h = rng.choice([2, 4]), rng.choice([2, 4, 6])
+            rects.append((-w // 2, w // 2, a, a + h) if fam == 'column' else (a, a + h, -w // 2, w // 2))
+    elif fam == 'tied-mix':
+        n = rng.range(3, 6)
+        cx, cy = rng.below(3), rng.below(3)
+        for k in range(n):
+            if rng.chance(2, 3):
+                a, b = rng.range(1, 3), rng.range(1, 3)
+                rects.append((cx - a, cx + a, cy - b, cy + b))
+            else:
+                x, y = rng.below(6), rng.below(6)
+                rects.append((x, x + rng.range(1, 3), y, y + rng.range(1, 3)))
+    else:
+        inst = gen_instance(rng)
+        scale, rects = inst.scale, inst.rects
+    n = len(rects)
+    pat = rng.choice(['zero', 'const', 'mod2', 'half', 'rand2', 'randn', 'distinct-rev'])
+    ids = {'zero': [0] * n, 'const': [7] * n, 'mod2': [i % 2 for i in range(n)], 'half': [i // 2 for i in range(n)],
+           'rand2': [rng.below(2) for _ in range(n)], 'randn': [rng.below(max(n - 1, 1)) for _ in range(n)],
+           'distinct-rev': [n - 1 - i for i in range(n)]}[pat]
+    return Inst(scale, rects, 0, 0, 'dupid-%s-%s' % (fam, pat)), ids
+
+
+def cmd_G_ids(inst, mode, ids, pk=0, pdir=0):
+    return 'G %d %d %d %d %d %d %d %s %s' % (mode + 20, inst.scale, inst.xb, inst.yb, pk, pdir, inst.n(), inst.flat(), ' '.join(map(str, ids)))
+
+
+def dup_tie(inst, ids, mode):
+    """two nodes that CmpNodePos can only order by address: equal centre in the scanned order and equal id"""
+    c = inst.centres(1 if mode == 0 else 0)
+    seen = set()
+    for k in zip(c, ids):
+        if k in seen:
+            return True
+        seen.add(k)
+    return False
